@@ -27,7 +27,7 @@ def plan(tier):
             {"fam": "fenwick", "trace": "PackedTrace"},
             {"fam": "bitencbig", "trace": "PackedTrace"},
         ],
-        "required_obligations": ["tlc_behaviours_replayed", "push_values_crosses_block_end",
+        "required_obligations": ["mixed_signedness_type_pairs", "tlc_behaviours_replayed", "push_values_crosses_block_end",
                                  "push_values_inside_block", "push_values_overwide_value", "width_with_padding",
                                  "from_elem_max_refused", "value_equals_small_max", "value_above_small_max",
                                  "value_below_small_min", "set", "len_power_of_two",
